@@ -5,17 +5,18 @@ go 1.23.1
 require (
 	git.metabarcoding.org/obitools/obitools4/obitools4 v0.0.0
 	github.com/anishathalye/porcupine v1.3.0
+	github.com/dsnet/compress v0.0.1
+	github.com/klauspost/compress v1.17.2
 	github.com/sirupsen/logrus v1.9.3
+	github.com/ulikunitz/xz v0.5.11
 )
 
 require (
 	github.com/DavidGamba/go-getoptions v0.28.0 // indirect
 	github.com/PaesslerAG/gval v1.2.2 // indirect
 	github.com/barkimedes/go-deepcopy v0.0.0-20220514131651-17c30cfc62df // indirect
-	github.com/dsnet/compress v0.0.1 // indirect
 	github.com/gabriel-vasile/mimetype v1.4.3 // indirect
 	github.com/goccy/go-json v0.10.3 // indirect
-	github.com/klauspost/compress v1.17.2 // indirect
 	github.com/klauspost/pgzip v1.2.6 // indirect
 	github.com/mattn/go-runewidth v0.0.15 // indirect
 	github.com/mitchellh/colorstring v0.0.0-20190213212951-d06e56a500db // indirect
@@ -24,7 +25,6 @@ require (
 	github.com/schollz/progressbar/v3 v3.13.1 // indirect
 	github.com/shopspring/decimal v1.3.1 // indirect
 	github.com/tevino/abool/v2 v2.1.0 // indirect
-	github.com/ulikunitz/xz v0.5.11 // indirect
 	golang.org/x/exp v0.0.0-20231006140011-7918f672742d // indirect
 	golang.org/x/net v0.17.0 // indirect
 	golang.org/x/sys v0.17.0 // indirect
